@@ -23,6 +23,11 @@ must equal it exactly), exactly for real-dtype trees without dense leaves, else 
 2e-4 single; kind tree of every factor = the tree promised for the input (`Op.promisedSkel`), no dense array in
 factors of structured inputs.
 code vs spec: computed exactly by the driver.
+Outcomes other than `ok` / VIOLATION are exact and listed case by case in the evidence (`not_fully_compared`): `refused-ok` (real
+and model fail in the same way — LinAlgError / NaN factor — AND the input is outside the property's quantifier by a predicate
+evaluated on the input: a negative Diagonal / ScalarMul entry, a dense node that is not positive definite), `spec-only-ok` (the
+exact model has no Gaussian-rational root — checked on the input — and the real result meets the specification), `skipped`
+(a generated tree that is not square / well-formed).  The generator produces none of them.
 When the real code differs from the code model but still meets the specification, a neighbourhood of the case (dense
 leaves replaced by complex Hermitian positive-definite payloads with non-real off-diagonals, un-annotated / PSD /
 SelfAdjoint, both calls) is searched for an input on which the real code contradicts the specification.
@@ -46,16 +51,20 @@ warnings.simplefilter("ignore")
 MODULE = "ColaVerif.Properties.C11"
 DRIVER = "DriverC11.lean"
 
-# Genuine defects found by this check and not yet decided would be listed here (clause -> what fails).
-# `plu(Diagonal | ScalarMul)` returning NaN factors for negative entries (clause sqrt-undefined-entry) was FIXED in /repo
-# (7421396: the rule returns (I, I, A)); the code model mirrors the fixed rule, nothing is provisional.
-PROVISIONAL_KNOWN = {}
+# Recorded findings are read from /verif/known_findings.json through common.known_clauses (C11: none at present).  No finding is
+# provisional.  History: `plu(Diagonal | ScalarMul)` returned NaN factors for negative entries; fixed in /repo (7421396: the rule
+# returns (I, I, A)); the code model mirrors the fixed rule and the driver reports no clause (`clausesOf` = []).
 
 TOL = {"double": 1e-9, "single": 2e-4}
 MAX_REPORTS = 5      # VIOLATION lines with a concrete failing input (replay files) per run; further ones are counted in the evidence
 MAX_NOINPUT = 2      # VIOLATION lines `no-failing-input-found` per run (real differs from the code model, specification still met)
 MAX_SHRINKS = 2      # failing inputs that are shrunk (each round re-runs the Lean driver)
 OBS = collections.Counter()   # how the factor matrices of plu cases with dense leaves were compared (evidence)
+SAME_P = "same permutation as the model: L and U compared with the model's"
+OTHER_P = "other pivot order than the model: defining properties only"
+PIVOT_NOTE = [None]            # set by real_vs_code for the case being classified
+NOT_COMPARED = collections.Counter()   # evidence: every case that is not fully compared three-way, by exact reason
+NOT_COMPARED_CASES = []                # ... and the cases themselves (first few), so that each one is justified individually
 MAX_NEIGH = 3        # neighbourhood searches for a failing input around cases where real differs from the code model
 
 
@@ -569,8 +578,8 @@ def real_vs_code(case, ans, real):
         # the permutations do (pivot orders may differ on ties, then only the defining properties are compared)
         Pr, Pc = real["factors"][0]["dense"], ans_mat(code["factors"][0]["den"])
         unique = Pr.shape == Pc.shape and bool(np.array_equal(Pr.astype(np.complex128), Pc))
-        OBS["same permutation as the model: L and U compared with the model's" if unique else
-            "other pivot order than the model: defining properties only"] += 1
+        # EXACT predicate on the two results: the real permutation matrix equals the model's entry by entry, or not
+        PIVOT_NOTE[0] = SAME_P if unique else OTHER_P
     exact = (not has_dense_leaf(case["op"])) and (not is_complex_tree(case["op"]))
     for i, (fr_, fc) in enumerate(zip(real["factors"], code["factors"])):
         for k in ("skel", "kinds", "dtype", "rows", "cols"):
@@ -581,27 +590,141 @@ def real_vs_code(case, ans, real):
     return True, None
 
 
+def rule_leaves(e):
+    """the nodes the structural rules of cholesky / plu hand to a leaf rule: Identity / Diagonal / ScalarMul leaves and the
+    nodes that take the dense fallback (through Kronecker / BlockDiag members and declaration wrappers)"""
+    t = e[0]
+    if t == "ann":
+        return rule_leaves(e[2])
+    if t == "kron":
+        return [x for k in e[1:] for x in rule_leaves(k)]
+    if t == "bdiag":
+        return [x for k in e[1] for x in rule_leaves(k)]
+    return [e]
+
+
+def gq(v):
+    """payload scalar -> (re, im) as Fractions"""
+    return (fr(v[0]), fr(v[1])) if isinstance(v, list) else (fr(v), Fraction(0))
+
+
+def rat_sqrt(q):
+    import math
+    if q < 0:
+        return None
+    a, b = math.isqrt(q.numerator), math.isqrt(q.denominator)
+    return Fraction(a, b) if a * a == q.numerator and b * b == q.denominator else None
+
+
+def root_class(dt, v):
+    """x ** 0.5 of one Diagonal / ScalarMul entry, read exactly on the INPUT:
+    'pos-rational' / 'pos-irrational' (a positive real: inside CholPre; the principal root is / is not rational),
+    'nan' (negative real under a real dtype: NumPy returns NaN), 'nonpos' (zero, or negative / non-real under a complex dtype: the
+    root exists but the entry is not positive — outside CholPre, L L^H need not be A: C11_chol_pos_needed),
+    'complex-under-real' (a payload the case language should not produce)"""
+    re, im = gq(v)
+    if dt in ("f32", "f64") and im != 0:
+        return "complex-under-real"
+    if im != 0 or re <= 0:
+        return "nan" if (dt in ("f32", "f64") and re < 0) else "nonpos"
+    return "pos-rational" if rat_sqrt(re) is not None else "pos-irrational"
+
+
+def root_classes(e):
+    """classes of the roots cholesky takes on this INPUT (entries of the Diagonal / ScalarMul leaves the rules reach)"""
+    out = set()
+    for x in rule_leaves(e):
+        if x[0] == "diag":
+            out |= {root_class(x[1], v) for v in x[2]}
+        elif x[0] == "scalar":
+            out.add(root_class(x[1], x[2]))
+    return out
+
+
+def fallback_not_pd(e):
+    """some node that takes the dense fallback of cholesky is not Hermitian positive definite (what potrf sees: the Hermitian
+    completion of the lower triangle): -> 'yes' | 'no' | 'borderline' (smallest eigenvalue within 1e-6 of 0, relative)"""
+    verdict = "no"
+    for x in rule_leaves(e):
+        if x[0] in ("eye", "diag", "scalar"):
+            continue
+        M = nominal(x)
+        if M is None:
+            return "borderline"
+        H = np.tril(M) + np.tril(M, -1).conj().T
+        w = float(np.linalg.eigvalsh(H).min())
+        s = max(1.0, float(np.abs(H).max()))
+        if w < -1e-6 * s:
+            return "yes"
+        if w <= 1e-6 * s:
+            verdict = "borderline"
+    return verdict
+
+
+def note_not_compared(reason, case):
+    NOT_COMPARED[reason] += 1
+    if len(NOT_COMPARED_CASES) < 12:
+        NOT_COMPARED_CASES.append({"reason": reason, "case": {"call": case["call"], "op": case["op"]}})
+
+
 def classify(case, ans, real):
-    """-> (status, detail, spec_on_real)"""
+    """-> (status, detail, spec_on_real); status in
+    ok | refused-ok | spec-only-ok | known? | violation | stale-model | spec-mismatch | skipped | driver-error.
+    refused-ok: real and code model fail in the same way (LinAlgError / NaN factor) AND the input predicate that puts the case
+    outside the quantifier of the property holds.  spec-only-ok: the exact model has no answer (irrational root: predicate
+    checked on the input); the real result is compared with the specification alone.  skipped: nothing is compared (a generated
+    tree that is not square / well-formed) — listed case by case in the evidence."""
+    PIVOT_NOTE[0] = None
     if "error" in ans:
         return "driver-error", ans["error"], None
     if not ans.get("wf", True) or ans["rows"] != ans["cols"]:
+        note_not_compared("skipped: not a square well-formed operator", case)
         return "skipped", "not a square well-formed operator", None
     N = nominal(case["op"])
     if N is not None and not (N.shape == (ans["rows"], ans["cols"]) and np.array_equal(ans_mat(ans["den"]).reshape(N.shape), N)):
         return "spec-mismatch", "the driver's den A differs from the matrix numpy assembles from the case", None
     code = ans["code"]
-    if not code["ok"] and code["err"] in ("inexact", "model-lu-failed", "not-square", "model:complex-payload-under-real-dtype"):
-        return "skipped", "outside the exact model: " + code["err"], None
+    if not code["ok"] and code["err"] == "inexact":
+        # the exact model has no Gaussian-rational root; justified only by the input predicate (an irrational root is taken)
+        rcs = root_classes(case["op"])
+        bad = sorted(rcs - {"pos-rational", "pos-irrational"})
+        if case["call"] != "chol" or not (rcs - {"pos-rational"}):
+            return "stale-model", "the model answers `inexact` but every Diagonal / ScalarMul entry reached by cholesky is a positive rational square", None
+        if bad:
+            # not positive definite factor by factor: outside CholPre, nothing is claimed (and the exact model has no answer)
+            note_not_compared(f"skipped: outside CholPre, Diagonal / ScalarMul entries of class {bad} on the input (exact model: inexact)", case)
+            return "skipped", "outside CholPre: " + ",".join(bad), None
+        # all entries positive, some root irrational: the real result is compared with the specification alone
+        if "factors" in real and "nan" not in real:
+            rsd = real_vs_spec(case, ans, real)
+            if all(rsd.values()):
+                note_not_compared("spec-only-ok: irrational root of a positive entry, real compared with the specification only", case)
+                return "spec-only-ok", "irrational root", rsd
+            return "violation", f"real violates the specification on {[k for k, v in rsd.items() if not v]}", rsd
+        return "violation", f"cholesky of a tree with positive Diagonal / ScalarMul entries does not return finite factors ({real.get('err')}: {real.get('msg', '')})", {"returns": False}
+    if not code["ok"] and code["err"] in ("model-lu-failed", "not-square", "model:complex-payload-under-real-dtype"):
+        # never an answer on a square well-formed tree of the case language: the driver's LU is total (a zero pivot column is
+        # skipped), shapes were checked above, payloads of real dtypes are real
+        return "stale-model", "the exact model fails on a square well-formed tree: " + code["err"], None
     if not code["ok"] and code["err"] == "nan" and case["call"] == "chol":
-        # a negative Diagonal / ScalarMul entry: not positive definite factor by factor, outside the quantifier
-        return ("skipped", "not positive definite (NaN root on both sides)", None) if "nan" in real else \
-            ("stale-model", "model takes the root of a negative entry (NaN), real does not", None)
+        # the root of a negative Diagonal / ScalarMul entry under a real dtype: NaN factor on both sides, and the input is not
+        # positive definite factor by factor (outside CholPre) — all three must hold
+        if "nan" not in real:
+            return "stale-model", "model takes the root of a negative entry (NaN), real does not", None
+        if "nan" not in root_classes(case["op"]):
+            return "stale-model", "real and model return a NaN factor, but no Diagonal / ScalarMul entry of a real dtype is negative", None
+        note_not_compared("refused-ok: NaN factor on both sides, negative Diagonal / ScalarMul entry on the input", case)
+        return "refused-ok", "nan", None
     if not code["ok"] and code["err"] == "linalg-error":
-        # not positive definite / no exact rational factor: outside the quantifier of the property
+        # potrf fails: real must raise LinAlgError as well, and a fallback node must fail to be positive definite on the input
         rc, _ = real_vs_code(case, ans, real)
-        return ("skipped", "not positive definite (both raise)", None) if rc else \
-            ("stale-model", "model raises LinAlgError, real does not", None)
+        if not rc:
+            return "stale-model", "model raises LinAlgError, real does not", None
+        npd = fallback_not_pd(case["op"])
+        if npd == "no":
+            return "violation", "cholesky raises LinAlgError although every dense node is Hermitian positive definite", {"returns": False}
+        note_not_compared(f"refused-ok: LinAlgError on both sides, a dense node is not positive definite on the input ({npd})", case)
+        return "refused-ok", "linalg-error", None
     rc, kc = real_vs_code(case, ans, real)
     cs = all(ans["spec"].values())
     if "factors" in real and "nan" not in real:
@@ -611,6 +734,8 @@ def classify(case, ans, real):
         rsd = {"returns": False}
         rs = False
     if rc and cs and rs:
+        if PIVOT_NOTE[0]:
+            OBS[PIVOT_NOTE[0]] += 1          # counted once per fully compared case
         return "ok", "", rsd
     if rc and not cs:
         return "known?", list(ans.get("clauses", [])), rsd
@@ -736,8 +861,10 @@ def run(ctx):
         gate = common.lean_gate(ctx, MODULE)
     except common.LeanGateError as ex:
         gate_err = str(ex)
-    known = dict(PROVISIONAL_KNOWN)
-    known.update({k: v["what"] for k, v in common.known_clauses(ctx.prop).items()})
+    known = {k: v["what"] for k, v in common.known_clauses(ctx.prop).items()}
+    OBS.clear()
+    NOT_COMPARED.clear()
+    del NOT_COMPARED_CASES[:]
     stats = collections.Counter()
     hist = {"call": collections.Counter(), "root": collections.Counter(), "leaf_kinds": collections.Counter(),
             "dtype": collections.Counter(), "depth": collections.Counter(), "dim": collections.Counter(),
@@ -898,14 +1025,34 @@ def run(ctx):
                    "real-dtype trees without dense leaves, else relative tolerance 1e-9 (double) / 2e-4 (single); dense PLU leaves "
                    "through P L U = A, triangularity, permutation, and L, U against the model's whenever the real permutation equals the "
                    "model's (unit lower L: unique then; the model's pivot order need not be LAPACK's on ties)",
-        "provisional_known": PROVISIONAL_KNOWN,
+        "provisional_known": {},
+        "not_fully_compared": {
+            "meaning": "every case whose outcome is not `ok` (= real, code model and specification compared three-way) and not a VIOLATION, by exact "
+                       "reason; refused-ok = real and model fail in the same way (LinAlgError / NaN factor) and the input predicate that puts the "
+                       "case outside the property's quantifier holds; spec-only-ok = the exact model has no rational root (checked on the input), real "
+                       "vs specification only; skipped = nothing compared.  The generator produces none of them; each is listed below",
+            "by_reason": dict(NOT_COMPARED),
+            "cases": NOT_COMPARED_CASES,
+            "skipped": stats["skipped"], "refused-ok": stats["refused-ok"], "spec-only-ok": stats["spec-only-ok"],
+        },
         "notes": ctx.notes[:5],
     }
     common.write_evidence(ctx, gate, cov, assumptions=[
-        "the numerical primitives (x ** 0.5, LAPACK potrf, scipy.linalg.lu) enter the theorems through their contracts (Op.Contracts); "
-        "the driver's exact instance is proved to satisfy them, LAPACK's own instance is covered by the correspondence stream only",
-        "cholesky: the theorem needs the tree positive definite FACTOR BY FACTOR (Op.CholPre); a positive-definite Kronecker product of "
-        "two negative-definite factors is not covered (C11_chol_hereditary_needed) and not generated",
-        "IEEE rounding is outside the model: LAPACK paths are compared with a relative tolerance on well-conditioned generated inputs",
+        "contract `Op.Contracts P pos` (hypothesis `hP` of C11_chol, C11_chol_entrywise, C11_plu, C11_plu_entrywise, C11_structure_plu), field by "
+        "field ASSUMED behaviour of the numerical primitives: `sqrt_sq` (x ** 0.5 squares back to x when it returns) and `sqrt_pos` (the root of "
+        "a `pos` entry is `pos`) for NumPy's `x ** 0.5`; `chol` (when LAPACK potrf returns L: L lower triangular, L L^H = the Hermitian completion "
+        "of the lower triangle); `lu` (when scipy.linalg.lu(p_indices=True) returns (p, L, U): p a permutation, L unit lower, U upper, "
+        "L[p] U = A).  Proved for the driver's exact instance GDecomp.params (C11_contracts_instance); for NumPy / LAPACK / SciPy covered only "
+        "by this correspondence stream with tolerance 1e-9 (double) / 2e-4 (single) on well-conditioned generated inputs",
+        "precondition `Op.CholPre pos A` (hypothesis `hpre` of C11_chol*): Diagonal / ScalarMul entries reached by the structural rules are `pos`, "
+        "members of Kronecker / BlockDiag recursively, every dense-fallback node is C01-`Good` (wf, dupSlice = false, HermOK) and `HermOn`; "
+        "positive definite FACTOR BY FACTOR — a positive-definite Kronecker product of two negative-definite factors is not covered "
+        "(C11_chol_hereditary_needed) and not generated",
+        "precondition `Op.PluPre A` (hypothesis `hpre` of C11_plu*): every dense-fallback node is C01-`Good`",
+        "totality premises, NOT derived from positive definiteness / non-singularity of den A: `Op.CholReturns P A` and `Op.RootsDefined P A` "
+        "(C11_chol_total_partial), `Op.LuReturns P A` (C11_plu_total); all other theorems are conditional on the rule returning `.ok`",
+        "IEEE rounding is outside the model: LAPACK paths are compared with a relative tolerance on well-conditioned generated inputs; the driver's "
+        "LU pivot order (largest squared modulus, first maximum) need not be LAPACK's: where the real permutation differs from the model's (exact "
+        "predicate, counted in plu_dense_leaf_cases) L and U are checked through the defining properties only",
     ])
     print(json.dumps({"outcomes": dict(stats), "distinct_nontrivial": len(distinct), "gate": (gate or {}).get("obligations")}))
